@@ -1,7 +1,7 @@
 """C12 — only the current admin can migrate or re-assign admin; migration keeps state (DESIGN.md §5 C12)."""
 from vlib import q
 from vlib.cfg import cfg_of
-from vlib.prov import peel, fmt, is_param, contains, alts, deep_peel, same_origin, is_param_field
+from vlib.prov import peel, fmt, is_param, contains, alts, deep_peel, same_origin, is_param_field, just
 
 LEVEL = "other"
 EXPLANATION = (
@@ -207,7 +207,7 @@ def r_update_admin(ctx, cfg):
             a = P.call_args(e, t, bid)
             arms = [c[2][0] for ee, c in q.dominating_conditions(P, e, bid) if c[0] == "variant_in" and len(c[2]) == 1 and is_param(c[1], "msg")]
             arm = arms[0] if arms else "?"
-            ok = is_param(a[3], "sender") and contains(a[4], lambda x: is_param_field(x, "msg", "contract_addr")) and is_param(a[2], "storage")
+            ok = is_param(a[3], "sender") and just(a[4], lambda x: is_param_field(x, "msg", "contract_addr")) and is_param(a[2], "storage")
             na = peel(a[5])
             if arm == "UpdateAdmin":
                 ok = ok and na[0] == "agg" and na[1].endswith("Option::Some") and is_param_field(na[2][0][1], "msg", "admin")
@@ -271,5 +271,5 @@ def r_migrate(ctx, cfg, R3="C12.R3", full=True):
            sample="call_migrate dominated by Continue(save_contract(..))")
     ctx.ob(R3, key, "migrate-runs-on-same-address-and-store", same_origin(ma[1], addr) and is_param(ma[3], "storage") and is_param(sa[1], "storage"),
            "call_migrate runs on %s, record saved under %s" % (fmt(ma[1])[:60], fmt(addr)[:60]), fn=f, line=mt["line"], sample="same address, same storage")
-    ctx.ob(R3, key, "migrate-message-forwarded", contains(ma[6], lambda x: is_param_field(x, "msg", "msg")), "migrate message is %s" % fmt(ma[6])[:80], fn=f,
+    ctx.ob(R3, key, "migrate-message-forwarded", just(ma[6], lambda x: is_param_field(x, "msg", "msg")), "migrate message is %s" % fmt(ma[6])[:80], fn=f,
            sample="msg.to_vec()")
